@@ -341,6 +341,58 @@ def random_walks(chk, cls, dt, rec, refs, rng, nwalks, length):
     chk.count('walks-%s-%s' % (cls.name, dt), 'directed-scripts', 2 * len(scripts))
 
 
+PAIRS = [('Periodogram', 'pburg'), ('pcorrelogram', 'MultiTapering'), ('pyule', 'pyule'), ('parma', 'pma'), ('pmusic', 'pev'),
+         ('pcovar', 'pminvar'), ('Periodogram', 'Periodogram'), ('pmodcovar', 'pburg')]
+
+
+def pair_walks(chk, rec, rng, nwalks, length):
+    """SpectrumPair.tla: two objects alive together, operations interleaved at random.  Each operation is recorded as
+    a Snap of the object it is applied to (the abstract state switches to that object) followed by the operation
+    event, which also carries what the OTHER object reports (attributes, axis) before and after: the frame clause."""
+    for w in range(nwalks):
+        names = PAIRS[w % len(PAIRS)]
+        dts = [('real', 'complex'), ('complex', 'real'), ('real', 'real'), ('complex', 'complex')][(w // len(PAIRS)) % 4]
+        objs = []
+        for name, dt in zip(names, dts):
+            cls = D.CLASSES[name]
+            at = initial_attrs(cls, dt, rng)
+            ok, p = call_guard(cls.ctor, at)
+            if not ok:
+                raise core.MachineryError('cannot construct %s with %r: %r' % (name, at, p))
+            objs.append({'cls': cls, 'p': p, 'dt': dt, 'ops': random_ops(cls, dt, rng), 'refs': D.RefCache(cls), 'hist': [D.attrs_of(p, cls)],
+                         'computed': False, 'init': at})
+        script = []
+        meta = {'pair': list(names), 'dts': list(dts), 'init': [o['init'] for o in objs], 'script': script}
+        for _s in range(length):
+            i = rng.randrange(2)
+            o, other = objs[i], objs[1 - i]
+            op, arg = rng.choice(o['ops'])
+            while (op in ('SetSides', 'GetConverted') and arg == 'onesided' and o['p'].datatype == 'complex') or \
+                  (op == 'GetConverted' and not o['computed']):
+                op, arg = rng.choice(o['ops'])
+            script.append([i, op, arg])
+            tid = rec.new_trace()
+            pre = {'attrs': D.attrs_of(other['p'], other['cls']), 'axis': D.axis_of(other['p'])}
+            snap = snap_event(tid, o['cls'], o['p'])
+            ev = op_event(tid, o['cls'], o['p'], op, arg, o['refs'], o['hist'])
+            if consistent_refusal(o['cls'], o['p'], op, ev):
+                break
+            try:
+                post = {'attrs': D.attrs_of(other['p'], other['cls']), 'axis': D.axis_of(other['p'])}
+            except Exception:
+                post = {'broken': True}
+            ev['others'] = [{'pre': pre, 'post': post}]
+            rec.add(snap, dict(meta, upto=len(script)))
+            rec.add(ev, dict(meta, upto=len(script)))
+            if ev['err'] or 'broken' in ev['post']:
+                break
+            if op in ('Call', 'ReadPsd'):
+                o['computed'] = True
+            o['hist'].append(ev['post'])
+        chk.traces += 1
+    chk.count('pair-walks', 'walks', nwalks)
+
+
 # ---------------------------------------------------------------------------- validation by TLC
 def clean_event(ev):
     e = dict(ev)
@@ -365,7 +417,7 @@ def signature(ev, clause, prev):
     return 'C07:%s:%s:%s' % (cls, clause, ev['op'])
 
 
-C07_CLAUSES = ('no-exception', 'attributes', 'axis', 'read-fresh', 'read-layout', 'read-length',
+C07_CLAUSES = ('other-live-objects-unaffected', 'no-exception', 'attributes', 'axis', 'read-fresh', 'read-layout', 'read-length',
                'converted-fresh', 'converted-layout', 'converted-length', 'unchanged-value-changes-nothing')
 
 
@@ -474,6 +526,11 @@ def run(chk, classes=None):
         for dt in ('real', 'complex'):
             refs = D.RefCache(cls)
             random_walks(chk, cls, dt, rec, refs, rng, nwalks=12 if quick else 150, length=14 if quick else 40)
+    pair_walks(chk, rec, rng, nwalks=16 if quick else 160, length=12 if quick else 30)
+    pair_cfg = tlc._cfg_text(constants={'Ops': '<- OpsSmall', 'Init1': '<- I1', 'Init2': '<- I2', 'SharedAxis': False},
+                             invariants=['OwnAxis'], properties=['Frame'])
+    res = chk.tlc('MC_SpectrumPair', pair_cfg, part='model-pair', dump=False, workers=2)
+    tlc.cleanup(res.workdir)
     refusal_is_persistent(chk)
     validate(chk, rec, 'trace-validation')
     chk.count('trace-validation', 'events', len(rec.events))
